@@ -17,7 +17,7 @@ fn vk(out: &mut Vec<Violation>, prop: &'static str, clause: &'static str, detail
 pub fn ref_stream(d: &Digest, s: usize) -> Option<Vec<(ActId, u32, u64, u8, usize)>> {
     let subs = whole_run_direct_subs(d, s);
     let (sub, _, _) = subs.first()?;
-    if d.stores[s].clean_stop.is_none() {
+    if d.end_of_store(s).is_none() {
         return None;
     }
     Some(sub_log(d, *sub).into_iter().filter(|x| d.act_store.get(&x.0) == Some(&s)).collect())
